@@ -9,12 +9,13 @@ PROPS = {
         level="exploration",
         technique="property-based testing (rapid): generated allocation worlds run through the real daemon "
                   "AllocIP (real eni.Manager + Local/Trunk/CRDV2 allocators over a fake API server), reply checked "
-                  "against scenario ground truth and a big-integer gateway reference, then marshalled and fed to the "
+                  "against scenario ground truth and a big-integer gateway reference; after every ADD the real GetIPInfo (CHECK/DEL) is asked for the "
+                  "same sandbox, put under the same oracle and compared with the ADD reply; the ADD reply is then marshalled and fed to the "
                   "plugin's real parseSetupConf (round-trip + table/metamorphic check of getDatePath)",
         rule="cases drawn by rapid generators (allocation world: legacy pool / exclusive ENI / trunk PodENI / CRD node "
              "binding / CRD PodENI, ipv4|dual|ipv6, 1-4 allocations, CNI conf, runtime bandwidth); non-trivial = reply "
              "with >= 2 NetConfs, or dual-stack, or a runtime bandwidth override, or a CRD node holding stale records of an earlier incarnation of the pod (for the defaulting test: list of >= 2 "
-             "entries; for the datapath table: trunk set); distinct = distinct scenario hash",
+             "entries; for the datapath table: trunk set); every configuration the daemon returns for the pod is checked: AllocIP reply and the following GetIPInfo reply; distinct = distinct scenario hash",
         assumptions=[
             "PodENI objects have the shapes terway's controllers write: every allocation has an IPv4 address with its vSwitch CIDR "
             "(plus IPv6 with CIDR on dual-stack), Status.ENIInfos has an entry per allocation, interface names are distinct; "
@@ -29,7 +30,8 @@ PROPS = {
             "NetConf messages fed directly to the parser have the structure AllocIP emits (BasicInfo with PodIP/PodCIDR/GatewayIP/"
             "ServiceCIDR present); IP types are the three enum values, parse round-trip uses the two the daemon emits",
         ],
-        level_text="generated allocation results of all three kinds are pushed through the real daemon reply assembly and the real "
+        level_text="generated allocation results of all three kinds are pushed through the real daemon reply assembly (ADD reply and the stored "
+                   "configuration GetIPInfo returns afterwards) and the real "
                    "plugin parser and compared with independent ground truth; exploration, not proof",
         level_note="trusted base: Go net/netip/math/big, protobuf runtime, controller-runtime fake client. Not reached: the wiring "
                    "in daemon/builder.go (mirrored by the harness: Local/Trunk for legacy, CRDV2 for ipam crd), the metadata-service "
